@@ -12,6 +12,11 @@ lean/FordModel/Generated/C11.lean.
   anchorClasses  the isinstance tuple of FortranBase.get_url (anchor on the parent's page)
   docComponentKinds / docItemKinds   the kind names documented in
                  docs/user_guide/writing_documentation.rst (section Links)
+  mdBaseUrl / projDocsPath / summaryPath / pageTreeRoot   (ast, ford/__init__.py `main`) the setting handed to
+                 `MetaMarkdown(base_url=...)`, the `path=` of the conversion of the project file's text and of
+                 the summary ("none" when absent), the argument bound to `get_page_tree`'s `output_dir`
+  pagePathRoot   (ast, ford/pagetree.py `PageNode.__init__`) the root of `output_path = <root> / "page" /
+                 self.path.parent`, the location a static page's text is converted at
 """
 import ast
 import inspect
@@ -108,12 +113,91 @@ def extract():
     item = re.findall(r'"(\w+)"', m3.group(1))
     if len(comp) < 10 or len(item) < 8:
         raise ValueError("documented kind lists unexpectedly short")
+    sites = conversion_sites()
     return {
+        **sites,
         "linkTypes": link_types, "sublinkTypes": sublink_types, "childrenOrder": order,
         "nonListChildren": non_list, "getDirOwner": owner,
         "dirAlways": expand(gd[0][1]), "dirIfParent": expand(gd[1][1]), "dirParents": expand(gd[2][1]),
         "anchorClasses": expand(gu[0][1]), "docComponentKinds": comp, "docItemKinds": item,
     }
+
+
+def _calls(fn):
+    return [n for n in ast.walk(fn) if isinstance(n, ast.Call)]
+
+
+def _kw(call, name):
+    for k in call.keywords:
+        if k.arg == name:
+            return ast.unparse(k.value)
+    return None
+
+
+def conversion_sites():
+    """Where the texts that have no entity context are converted (the `path=` they are given) and what
+    the Markdown object's base URL is - the call sites in `ford.main` and `PageNode.__init__`."""
+    tree = ast.parse((common.REPO / "ford" / "__init__.py").read_text())
+    main = next((n for n in tree.body if isinstance(n, ast.FunctionDef) and n.name == "main"), None)
+    if main is None:
+        raise ValueError("ford/__init__.py: function main not found")
+    mk = [c for c in _calls(main) if ast.unparse(c.func) == "MetaMarkdown"]
+    if len(mk) != 1 or _kw(mk[0], "base_url") is None:
+        raise ValueError("ford.main: expected exactly one MetaMarkdown(..., base_url=...) call")
+    conv = [c for c in _calls(main) if isinstance(c.func, ast.Attribute) and c.func.attr == "convert" and c.args]
+    pd = [c for c in conv if ast.unparse(c.args[0]) == "proj_docs"]
+    sm = [c for c in conv if ast.unparse(c.args[0]) == "proj_data.summary"]
+    if len(pd) != 1 or len(sm) != 1:
+        raise ValueError("ford.main: conversion of proj_docs / proj_data.summary not found (or not unique)")
+    if len(pd[0].args) != 1 or len(sm[0].args) != 1 or _kw(pd[0], "context") or _kw(sm[0], "context"):
+        raise ValueError("ford.main: conversion of proj_docs / summary has an unexpected argument shape")
+    gp = [c for c in _calls(main) if ast.unparse(c.func) == "get_page_tree"]
+    if len(gp) != 1:
+        raise ValueError("ford.main: expected exactly one get_page_tree(...) call")
+    ptree = ast.parse((common.REPO / "ford" / "pagetree.py").read_text())
+    gpt = next((n for n in ptree.body if isinstance(n, ast.FunctionDef) and n.name == "get_page_tree"), None)
+    if gpt is None:
+        raise ValueError("ford/pagetree.py: get_page_tree not found")
+    params = [a.arg for a in gpt.args.args]
+    if "output_dir" not in params:
+        raise ValueError("get_page_tree has no parameter output_dir")
+    i = params.index("output_dir")
+    root_arg = _kw(gp[0], "output_dir") or (ast.unparse(gp[0].args[i]) if i < len(gp[0].args) else None)
+    if root_arg is None:
+        raise ValueError("ford.main: argument bound to get_page_tree's output_dir not found")
+    # get_page_tree must hand its output_dir on to every PageNode unchanged
+    pn_calls = [c for c in _calls(gpt) if ast.unparse(c.func) == "PageNode"]
+    init = _fn(_cls(ptree, "PageNode"), "__init__")
+    iparams = [a.arg for a in init.args.args][1:]   # without self
+    if "output_dir" not in iparams or not pn_calls:
+        raise ValueError("PageNode.__init__ has no parameter output_dir / no PageNode(...) call in get_page_tree")
+    j = iparams.index("output_dir")
+    for c in pn_calls:
+        got = _kw(c, "output_dir") or (ast.unparse(c.args[j]) if j < len(c.args) else None)
+        if got != "output_dir":
+            raise ValueError(f"get_page_tree passes {got!r} as PageNode's output_dir")
+    asg = [n for n in ast.walk(init) if isinstance(n, ast.Assign) and ast.unparse(n.targets[0]) == "output_path"]
+    if len(asg) != 1:
+        raise ValueError("PageNode.__init__: assignment to output_path not found")
+    v = asg[0].value
+    # shape: <root> / 'page' / self.path.parent
+    if not (isinstance(v, ast.BinOp) and isinstance(v.op, ast.Div) and ast.unparse(v.right) == "self.path.parent"
+            and isinstance(v.left, ast.BinOp) and isinstance(v.left.op, ast.Div)
+            and isinstance(v.left.right, ast.Constant) and v.left.right.value == "page"):
+        raise ValueError(f"PageNode.__init__: output_path has an unexpected shape {ast.unparse(v)!r}")
+    pconv = [c for c in _calls(init) if isinstance(c.func, ast.Attribute) and c.func.attr == "convert"]
+    if len(pconv) != 1 or _kw(pconv[0], "path") not in ("output_path.resolve()", "output_path") or _kw(pconv[0], "context"):
+        raise ValueError("PageNode.__init__: the page text is not converted with path=output_path[.resolve()]")
+    return {
+        "mdBaseUrl": _kw(mk[0], "base_url"),
+        "projDocsPath": _kw(pd[0], "path") or "none",
+        "summaryPath": _kw(sm[0], "path") or "none",
+        "pageTreeRoot": root_arg,
+        "pagePathRoot": ast.unparse(v.left.left),
+    }
+
+
+SITE_KEYS = ("mdBaseUrl", "projDocsPath", "summaryPath", "pageTreeRoot", "pagePathRoot")
 
 
 def lstr(s):
@@ -122,8 +206,8 @@ def lstr(s):
 
 def translate():
     t = extract()
-    L = ["/- GENERATED by translate/c11.py from ford/fortran_project.py, ford/sourceform.py and",
-         "   docs/user_guide/writing_documentation.rst - do not edit -/",
+    L = ["/- GENERATED by translate/c11.py from ford/fortran_project.py, ford/sourceform.py, ford/__init__.py,",
+         "   ford/pagetree.py and docs/user_guide/writing_documentation.rst - do not edit -/",
          "namespace Ford.Generated.C11", ""]
     for key in ("linkTypes", "sublinkTypes", "getDirOwner"):
         L.append(f"def {key} : List (String × String) := [")
@@ -132,6 +216,8 @@ def translate():
     for key in ("childrenOrder", "nonListChildren", "dirAlways", "dirIfParent", "dirParents", "anchorClasses",
                 "docComponentKinds", "docItemKinds"):
         L.append(f"def {key} : List String := [" + ", ".join(lstr(a) for a in t[key]) + "]\n")
+    for key in SITE_KEYS:
+        L.append(f"def {key} : String := {lstr(t[key])}\n")
     L.append("end Ford.Generated.C11\n")
     common.write_if_changed(common.LEAN / "FordModel" / "Generated" / "C11.lean", "\n".join(L))
     return t
